@@ -27,6 +27,7 @@ var c14Plan = []planEntry{
 	{spaces.XHead, 6, 7},
 	{spaces.B.Without("\r"), 5, 6},
 	{spaces.XPhrase, 4, 5},
+	{spaces.XInfo, 4, 5},
 }
 
 var c14Pads = []string{"\n", "\r\n", " \n", "\t\n\n", "\r"}
